@@ -766,8 +766,8 @@ def inline_body(db, f, originals, stats=None, mode="cons"):
                     raw = copy.deepcopy(f.raw)
                 if desugar_for_each(raw, originals, stats, f.id):
                     changed = True
-        if mode != "cons-broad" and not os.environ.get("VERIF_NO_FETCH_UPDATE"):
-            # (one view keeps fetch_update as written: rules that know the closure form of a status-word update see it there)
+        if comb and not os.environ.get("VERIF_NO_FETCH_UPDATE"):
+            # (only the "+c" views: rules that know the closure form of a status-word update see it in the others)
             has = any(b["term"]["k"] == "call" and _fn_def(b["term"])[0].endswith("::fetch_update") for b in (raw if raw is not None else f.raw)["blocks"])
             if has:
                 if raw is None:
